@@ -193,6 +193,56 @@ def capture_potential(ctx, harness):
     return rec.launches, np.asarray(val), rec.NK
 
 
+FMM_HELPERS = [
+    ("fmm-near-evaluate-laplace", "fan4", "laplace", [], "evaluate"),
+    ("fmm-near-sparse-helmholtz", "tet", "helmholtz", [1.1, 0.2], "sparse"),
+    ("fmm-dense-evaluator-modified", "tet", "modified_helmholtz", [0.9], "dense"),
+]
+
+
+def capture_fmm_helper(ctx, harness):
+    """The three parallel near-field helpers of fmm/helpers.py, called the way get_local_interaction_operator / ExafmmInterface call them."""
+    import bempp_cl.api as bem
+    import bempp_cl.api.fmm.helpers as FH
+    from bempp_cl.api.integration.triangle_gauss import rule
+
+    hid, meshname, mode, kp, how = harness
+    mesh = meshes.get(meshname, ctx.seed)
+    grid = SP.make_grid(mesh)
+    launches = []
+    names = ["numba_evaluate_local_interactions", "get_local_interaction_matrix_impl", "dense_interaction_evaluator_impl"]
+    orig = {n: getattr(FH, n) for n in names}
+
+    def wrap(n):
+        f = orig[n]
+
+        def w(*args, **kwargs):
+            launches.append(IL.Launch(n, f, args, kwargs))
+            return f(*args, **kwargs)
+
+        return w
+
+    old_near = bem.GLOBAL_PARAMETERS.fmm.near_field_representation
+    for n in names:
+        setattr(FH, n, wrap(n))
+    try:
+        pts, _ = rule(1)
+        if how == "dense":
+            cloud = np.asarray(grid.map_to_point_cloud(1))
+            charges = np.cos(np.arange(len(cloud)) + 0.4)
+            FH.dense_interaction_evaluator(cloud, cloud + 0.05, charges, mode, np.array(kp, dtype=np.float64))
+        else:
+            bem.GLOBAL_PARAMETERS.fmm.near_field_representation = how
+            op = FH.get_local_interaction_operator(grid, pts, mode, np.array(kp, dtype=np.float64), "double", mode == "helmholtz", "numba")
+            x = np.cos(np.arange(op.shape[1]) + 0.4)
+            op @ x
+    finally:
+        for n in names:
+            setattr(FH, n, orig[n])
+        bem.GLOBAL_PARAMETERS.fmm.near_field_representation = old_near
+    return launches, FH
+
+
 def analyse_launch(ctx, hid, li, launch, module, quick):
     """Race analysis on all iteration pairs + exhaustive interleavings + replay on the real code."""
     case = {"layer": "B", "harness": hid, "launch": li, "kernel": launch.name}
@@ -292,6 +342,14 @@ def layer_b(ctx):
             continue
         for li, launch in enumerate(launches):
             analyse_launch(ctx, h[0], li, launch, module, quick)
+    for h in FMM_HELPERS:
+        try:
+            launches, module = capture_fmm_helper(ctx, h)
+        except Exception as exc:  # noqa: BLE001
+            ctx.violation("schedule/capture/exception:%s" % type(exc).__name__, {"layer": "B", "harness": h[0]}, repr(exc))
+            continue
+        for li, launch in enumerate(launches):
+            analyse_launch(ctx, h[0], li, launch, module, quick)
     for h in POTENTIALS:
         try:
             launches, val, module = capture_potential(ctx, h)
@@ -364,7 +422,8 @@ def run(ctx):
                 "helmholtz_hypersingular_regular", "helmholtz_hypersingular_singular", "modified_helmholtz_hypersingular_regular",
                 "modified_helmholtz_hypersingular_singular", "maxwell_efield_regular_assembler", "maxwell_efield_singular",
                 "maxwell_mfield_regular_assembler", "maxwell_mfield_singular", "default_sparse_kernel", "default_scalar_potential_kernel",
-                "maxwell_efield_potential", "maxwell_mfield_potential", "maxwell_efield_far_field", "maxwell_mfield_far_field"}
+                "maxwell_efield_potential", "maxwell_mfield_potential", "maxwell_efield_far_field", "maxwell_mfield_far_field",
+                "numba_evaluate_local_interactions", "get_local_interaction_matrix_impl", "dense_interaction_evaluator_impl"}
         got = set(ctx.cov.get("kernels_traced", ()))
         ctx.require(need <= got, "every parallel kernel of numba_kernels.py traced; missing: %s" % sorted(need - got))
         ctx.require(ctx.cov.get("multi_element_colours", 0) > 0, "colours with more than one element present")
@@ -379,7 +438,7 @@ def run(ctx):
         "B: launches captured from real assemblies of 11 boundary operators and 7 potentials/far fields; all iteration pairs race-checked; "
         "explicit-state search over all load/store interleavings of 2 and 3 iterations; schedules with <=1 (2) preemptions replayed on the "
         "real py_func under a baton scheduler and compared with the model; C: compiled kernels with 1/2/7/16 threads bitwise equal",
-        extra={"harnesses": [h[0] for h in HARNESSES] + [h[0] for h in POTENTIALS]},
+        extra={"harnesses": [h[0] for h in HARNESSES] + [h[0] for h in POTENTIALS] + [h[0] for h in FMM_HELPERS]},
     )
 
 
@@ -398,6 +457,10 @@ def replay(ctx, case):
                 space = space.localised_space
         check_colouring(ctx, case["mesh"], spec, space, form)
     elif case.get("layer") == "B":
+        for h in FMM_HELPERS:
+            if h[0] == case["harness"]:
+                launches, module = capture_fmm_helper(ctx, h)
+                analyse_launch(ctx, h[0], case["launch"], launches[case["launch"]], module, True)
         for h in HARNESSES:
             if h[0] == case["harness"]:
                 launches, dense, module = capture(ctx, h)
